@@ -96,7 +96,18 @@ func c19Selectors() []string {
 	for _, n := range names {
 		out = append(out, n, n+".*")
 	}
-	return append(out, "*", "zz", "zz.*", "a.S.m", "A.S.M", "a.S.Mx", "a.S.M.x", "a.b.S.Mx.*")
+	out = append(out, "*", "zz", "zz.*", "a.S.m", "A.S.M", "a.S.Mx", "a.S.M.x", "a.b.S.Mx.*")
+	// malformed: a wildcard that is not the last component. Never bound; NewMux may refuse the
+	// configuration with an error, it must not panic.
+	return append(out, "a.*.M", "*.M", "a.S.*.x", "*.*", "a.b.*.M")
+}
+
+// c19Malformed: a selector with a '*' that is not its whole last component.
+func c19Malformed(sel string) bool {
+	if !strings.Contains(sel, "*") || sel == "*" {
+		return false
+	}
+	return !(strings.HasSuffix(sel, ".*") && strings.Count(sel, "*") == 1)
 }
 
 type c19Env struct {
@@ -134,6 +145,11 @@ func (e *c19Env) execSelectors(tc *c19Case) (oracle, note string) {
 		return "panic", txt
 	}
 	if err != nil {
+		for _, sel := range tc.Selectors {
+			if c19Malformed(sel) {
+				return "", "malformed-selector-refused"
+			}
+		}
 		return "newmux-error", err.Error()
 	}
 	impl := &recImpl{}
